@@ -53,6 +53,21 @@ impl PathBuf {
         ensures self@.len() > 0 ==> (r matches Some(s) && s@ == self@.last()), self@.len() == 0 ==> r is None
     { unimplemented!() }
 }
+// PathBuf::from(text) / PathBuf::from(&path): the path a text denotes is uninterpreted (only equality matters)
+pub uninterp spec fn path_of_text(s: Seq<char>) -> PathV;
+pub trait PathFromArg { spec fn pv(&self) -> PathV; }
+impl PathFromArg for String { open spec fn pv(&self) -> PathV { path_of_text(self@) } }
+impl<'a> PathFromArg for &'a String { open spec fn pv(&self) -> PathV { path_of_text(self@) } }
+impl<'a> PathFromArg for &'a PathBuf { open spec fn pv(&self) -> PathV { (**self)@ } }
+impl PathBuf {
+    #[verifier::external_body]
+    pub fn from<A: PathFromArg>(a: A) -> (r: PathBuf) ensures r@ == a.pv() { unimplemented!() }
+    // to_owned of the final component, as an OS string
+}
+impl OsString {
+    #[verifier::external_body]
+    pub fn to_owned(&self) -> (r: OsString) ensures r@ == self@ { unimplemented!() }
+}
 impl Clone for PathBuf {
     #[verifier::external_body]
     fn clone(&self) -> (r: PathBuf) ensures r@ == self@ { unimplemented!() }
